@@ -8,7 +8,7 @@ import sigcases as S
 PROP = "C05"
 META = dict(
     technique="Coq proof by structural induction over a deep embedding of adaptor trees and their iterators + coqc-evaluated model vs crate correspondence on every small tree shape",
-    text="Machine-checked (Coq 8.16.1) over the same model as C04 extended with the iterator side: from_iter yields exactly the list then equilibrium forever and reports exhaustion exactly after the last frame was returned (the look-ahead slot is modelled as coded); from_interleaved_samples_iter yields the complete frames only; is_exhausted is forwarded by unary adaptors, OR-ed by binary ones, held back by a delay that still emits silence, and is monotone; until_exhausted yields exactly live_len frames (min over binary nodes, k + ... over delays) then None forever without pulling; take(n) yields exactly n; the interleaved iterator yields the concatenated channels of exactly those frames then None; lift over pointwise adaptors yields one mapped frame per input frame. Tied to the crate by running the model inside coqc on every tree shape to depth 3 and random shapes of depth 4 with source lengths 0..17, sampling is_exhausted before and after every next and calling 0..8 more times after the end.",
+    text="Machine-checked (Coq 8.16.1) over the same model as C04 extended with the iterator side: from_iter yields exactly the list then equilibrium forever and reports exhaustion exactly after the last frame was returned (the look-ahead slot is modelled as coded); from_interleaved_samples_iter yields the complete frames only; is_exhausted is forwarded by unary adaptors, OR-ed by binary ones, held back by a delay that still emits silence, and is monotone; until_exhausted yields exactly live_len frames (min over binary nodes, k + ... over delays) then None forever without pulling; take(n) yields exactly n; the interleaved iterator yields the concatenated channels of exactly those frames then None; lift over pointwise adaptors yields one mapped frame per input frame. Tied to the crate by running the model inside coqc on every tree shape to depth 3 and random shapes of depth 4 with source lengths 0..17, sampling is_exhausted before and after every next and calling 0..8 more times after the end. take(n) and delay(k) are also generated AT TYPE-WIDTH BOUNDARIES (2^w - 1 .. 2^w + 5 for w = 8, 15, 16, 24, 31, 32, 33, 53, 63, multiples of 2^32 plus a little, usize::MAX and neighbours): take(n) over a borrowed base must yield every requested item, report size_hint = len = what is left of n before every call (observed), and leave the base pulled exactly as often as it was called; a delay that outlasts the run keeps until_exhausted / the interleaved iterator / lift from ever ending and is_exhausted false. The executable take counts in Z (theorem c05_take_counter: one step = one step of the proved take_next on Z.to_nat n); delay lengths are clamped to the run's bound by the model itself (C04: c04_run_delay_normalisation_sound; c05_delay_beyond_run_live).",
     note="Trusted: Coq kernel; the hand-written model validated only through the correspondence; Flocq-based float instance validated against rustc in the same run; harness + python generators. Axioms: none.",
     design="6/C05")
 
@@ -17,7 +17,7 @@ RULE = ("every tree shape of depth <= 3 over {leaf, pointwise unary, delay, bina
         "into_interleaved_samples / lift / clone of the whole stack after j calls / clone, nth(k), skip(k) on the returned iterators, with 0..8 "
         "further calls after the end; random depth-4 shapes; by_ref sequences over one finite base; clone sweeps (interleaved-sample iterator, "
         "until_exhausted, take cloned after every number of items 0..=total+1, original and clone drained and compared with the model, in which "
-        "a clone is the same state); non-trivial = tree of depth >= 2 containing a delay with k > 0 or a binary node whose sources have "
+        "a clone is the same state); the boundary-count family: for every value K of S.boundary_counts one case over a borrowed finite base with take(K) (size_hint / len observed before every call), the base read back, delay(K) over (almost) empty sources under N / until_exhausted / interleaved / lift, take(K') over delay(K), take(K) and until_exhausted / interleaved over delay(K) cloned / nth(k) / skip(k); non-trivial = tree of depth >= 2 containing a delay with k > 0 or a binary node whose sources have "
         "different lengths, or an interleaved-sample iterator cloned mid-frame (samples consumed not a multiple of the channel count, >= 2 channels)")
 
 FMT_CYCLE = ["i16x2", "u8x3", "i32x1", "i16x2", "f64x1", "u8x3", "i32x1", "f32x2"]
@@ -66,6 +66,54 @@ def one_op(r, g, fm, mk_tree, kind, bases=()):
         return ["I", fin * S.FMTS[fm]["n"] + extra + 1, extra, t]
     n = r.choice([0, 1, fin, fin + 2, r.range(0, 20)])
     return ["T", n, n + extra + 1, extra, t]
+
+
+def count_cases(rng, tier):
+    """for EVERY boundary value K one case over a borrowed finite base (the model receives the true K, see sigcases.py):
+      T K cap e  ctx(ref 0)          take(K): `cap` items (the base's frames, then equilibrium), size_hint / len = K, K-1, ..
+      N 2 ref 0                      the base has been pulled exactly `cap` times
+      N m delay K (empty / short)    live: is_exhausted false before and after every call
+      U / I  ctx(delay K finite)     until_exhausted / interleaved samples over a delay that outlasts the run: never None
+      T K' (delay K ..), IT take(K) cloned / nth(k) / skip(k), IT until_exhausted / interleaved (clone, nth, skip) over delay K
+      L lift(frames, |s| ctx(s.delay(K)))"""
+    items = []
+    ks = S.boundary_counts()
+    reps = 1 if tier == "quick" else 6
+    for rep_i in range(reps):
+        for i, K in enumerate(ks):
+            fm = S.COUNT_FMTS[(i + 3 * rep_i + 5) % len(S.COUNT_FMTS)]
+            r = rng.fork(f"count_{rep_i}_{i}")
+            for attempt in range(60):
+                g = S.Gen(r, fm, maxlen=6)
+                g.lens = [0, 1, 2, 3, 4, 5]
+                fl = finite_leaf(g)
+                base = ["iter", g.fresh(), [g.frame() for _ in range(r.choice([0, 1, 2, 4, 5]))]]
+                if r.chance(1, 3):
+                    base = g.unary(g.unary_kind(), base)
+                other = r.choice([k2 for k2 in ks if k2 != K])
+                short = lambda: r.choice([["iter", g.fresh(), [g.frame() for _ in range(r.choice([0, 0, 1, 3]))]], fl()])
+                nch = S.FMTS[fm]["n"]
+                cap = r.range(3, 5)
+                ops = [["T", K, cap, r.below(2), S.count_ctx(g, ["ref", 0], r.choice([0, 0, 1]))],
+                       ["N", 2, ["ref", 0]],
+                       ["N", r.range(2, 3), ["delay", K, r.choice([["iter", g.fresh(), []], ["samp", g.fresh(), [g.sample() for _ in range(nch - 1)]]])]],
+                       ["N", 2, ["delay", K, short()]],
+                       ["U", r.range(3, 5), r.below(3), S.count_ctx(g, ["delay", K, short()], r.choice([0, 1, 2]))],
+                       ["I", r.range(2, 4) * nch + r.below(nch), r.below(3), S.count_ctx(g, ["delay", K, short()], r.choice([0, 1]))],
+                       ["T", other, r.range(2, 4), r.below(2), ["delay", K, ["ref", 0]]],
+                       ["IT", 1, K, r.range(0, 2), r.choice([1, 2, 3]), r.range(0, 2), r.range(2, 4), r.below(2), S.count_ctx(g, short(), r.choice([0, 1]))],
+                       ["IT", r.choice([0, 2, 3]), 0, r.range(0, 3), r.choice([1, 1, 2, 3]), r.range(0, 2), r.range(2, 4), r.below(2),
+                        S.count_ctx(g, ["delay", K, short()], r.choice([0, 1]))]]
+                src = [g.frame() for _ in range(r.choice([0, 1, 3]))]
+                ops.append(["L", g.fresh(), src, r.range(3, 5), r.below(2), S.count_ctx(g, ["delay", K, ["arg"]], r.choice([0, 1]))])
+                ops.append(["N", 3, ["ref", 0]])
+                it = dict(fmt=fm, bases=[base], ops=ops)
+                if S.valid(it) and sum(S.float_cost(S.op_tree(o), fm, [base]) for o in ops) <= 60:
+                    items.append(S.count_item(fm, [base], ops, "count_boundary"))
+                    break
+            else:
+                raise RuntimeError("no valid boundary-count case")
+    return items, {"count_boundary_cases": len(items), "count_boundary_values": len(ks), "count_boundary_histogram": S.count_hist(items)}
 
 
 def gen_cases(rng, tier):
@@ -176,6 +224,9 @@ def gen_cases(rng, tier):
                 items.append(S.build(it))
                 n_sweep_ops += len(ops)
                 break
+    # counts at type-width boundaries: take(n) and delay(k) for every n, k of S.boundary_counts (2^8 .. 2^63, usize::MAX ...)
+    cnt, cnt_dist = count_cases(rng.fork("c05_count_boundary"), tier)
+    items += cnt
     lens = {}
     for it in items:
         for o in it["ops"]:
@@ -190,7 +241,7 @@ def gen_cases(rng, tier):
                 lens[key] = lens.get(key, 0) + 1
     return items, {"exhaustive_shape_cases": n_shape, "shapes_depth_le_3": len(shapes), "draws_per_shape": reps,
                    "random_depth4_cases": n4, "all_sample_format_cases": nall, "by_ref_sequences": nseq, "clone_sweep_cases": nsweep,
-                   "clone_sweep_ops": n_sweep_ops, "source_lengths": lens}
+                   "clone_sweep_ops": n_sweep_ops, "source_lengths": lens, **cnt_dist}
 
 
 def main(rep, tier, seed):
